@@ -91,3 +91,82 @@ Proof.
   - fold (zsum (map (fun x => coeff x k) l)). fold (zsum (map (fun s => coeff (scommit s) k) ss)). rewrite (IH _ H3).
     f_equal. match goal with E : geq _ (scommit s) |- _ => apply E end.
 Qed.
+
+(* ================================================================== C05: what acceptance means *)
+Lemma verify_ok_inv T spent : verify_tx_amt_proofs T spent = OVal tt <->
+  length spent = length (t_in T) /\ exists dom coms ocoms,
+    verify_inputs (t_in T) spent 0 = OVal (dom, coms) /\ verify_outputs dom (t_out T) 0 = OVal ocoms /\ geq (gsum coms) (gsum ocoms).
+Proof.
+  unfold verify_tx_amt_proofs. split.
+  - destruct (Nat.eqb_spec (length spent) (length (t_in T))) as [L|L]; cbn [negb]; [|discriminate].
+    destruct (verify_inputs (t_in T) spent 0) as [[dom coms]| |] eqn:VI; cbn [obind]; try discriminate.
+    destruct (verify_outputs dom (t_out T) 0) as [ocoms| |] eqn:VO; cbn [obind]; try discriminate.
+    unfold verify_commitments_sum_to_equal. destruct (geqb (gsum coms) (gsum ocoms)) eqn:B; cbn [negb]; [|discriminate].
+    intros _. split; [exact L|]. exists dom, coms, ocoms. split; [reflexivity|]. split; [exact VO|]. now apply geqb_spec.
+  - intros (L & dom & coms & ocoms & -> & VO & B). rewrite L, Nat.eqb_refl. cbn [negb obind]. rewrite VO. cbn [obind].
+    unfold verify_commitments_sum_to_equal. apply geqb_spec in B. rewrite B. reflexivity.
+Qed.
+Theorem verify_len_mismatch T spent : length spent <> length (t_in T) -> verify_tx_amt_proofs T spent = OFail UtxoInputLenMismatch.
+Proof. intro L. unfold verify_tx_amt_proofs. destruct (Nat.eqb_spec (length spent) (length (t_in T))); [contradiction|reflexivity]. Qed.
+
+(* per-output view of the second loop *)
+Lemma verify_outputs_nth dom : forall outs k cs, verify_outputs dom outs k = OVal cs ->
+  length cs = length outs /\ forall j o, nth_error outs j = Some o -> exists c, verify_output dom (k + j) o = OVal c /\ nth_error cs j = Some c.
+Proof.
+  induction outs as [|o outs IH]; intros k cs; cbn [verify_outputs].
+  - intros [= <-]. split; [reflexivity|]. intros [|j] ? H; discriminate H.
+  - destruct (verify_output dom k o) as [c| |] eqn:V; cbn [obind]; try discriminate.
+    destruct (verify_outputs dom outs (S k)) as [cs'| |] eqn:R; cbn [obind]; try discriminate. intros [= <-].
+    destruct (IH _ _ R) as [L N]. split; [cbn; congruence|]. intros [|j] o' NE; cbn [nth_error] in *.
+    + injection NE as <-. exists c. rewrite Nat.add_0_r. auto.
+    + destruct (N _ _ NE) as (c' & V' & NC). exists c'. split; [|exact NC]. replace (k + S j)%nat with (S k + j)%nat by lia. exact V'.
+Qed.
+Lemma verify_outputs_all dom : forall outs k cs, length cs = length outs ->
+  (forall j o, nth_error outs j = Some o -> exists c, verify_output dom (k + j) o = OVal c /\ nth_error cs j = Some c) ->
+  verify_outputs dom outs k = OVal cs.
+Proof.
+  induction outs as [|o outs IH]; intros k [|c cs] L H; cbn in L; try discriminate; cbn [verify_outputs]. - reflexivity.
+  - destruct (H 0%nat o eq_refl) as (c' & V & NC). rewrite Nat.add_0_r in V. cbn in NC. injection NC as ->. rewrite V. cbn [obind].
+    rewrite (IH (S k) cs); [reflexivity|lia|]. intros j o' NE. destruct (H (S j) o' NE) as (c'' & V' & NC').
+    exists c''. split; [|exact NC']. replace (S k + j)%nat with (k + S j)%nat by lia. exact V'.
+Qed.
+(* the index only labels the error *)
+Lemma verify_output_index dom k k' o c : verify_output dom k o = OVal c -> verify_output dom k' o = OVal c.
+Proof.
+  unfold verify_output. destruct (get_value_commit o) as [c0| |]; cbn [map_err obind]; try discriminate.
+  destruct (o_value o) as [|v|comm].
+  - cbn [obind]. destruct (o_asset o) as [| |g]; cbn [obind]; try (intro H; exact H).
+    destruct (o_sp o) as [sp|]; [|discriminate]. destruct (sp_verify sp g dom); [intro H; exact H|discriminate].
+  - cbn [obind]. destruct (o_asset o) as [| |g]; cbn [obind]; try (intro H; exact H).
+    destruct (o_sp o) as [sp|]; [|discriminate]. destruct (sp_verify sp g dom); [intro H; exact H|discriminate].
+  - destruct (get_asset_gen o) as [g0| |]; cbn [map_err obind]; try discriminate.
+    destruct (o_rp o) as [rp|]; [|discriminate]. destruct (rp_verify rp comm (o_script o) g0); cbn [obind]; [|discriminate].
+    destruct (o_asset o) as [| |g]; cbn [obind]; try (intro H; exact H).
+    destruct (o_sp o) as [sp|]; [|discriminate]. destruct (sp_verify sp g dom); [intro H; exact H|discriminate].
+Qed.
+(* what one accepted output guarantees *)
+Lemma verify_output_inv dom k o c : verify_output dom k o = OVal c ->
+  get_value_commit o = OVal c
+  /\ (forall comm, o_value o = VConf comm -> exists gen rp, get_asset_gen o = OVal gen /\ o_rp o = Some rp /\ rp_verify rp comm (o_script o) gen = true)
+  /\ (forall g, o_asset o = AConf g -> exists sp, o_sp o = Some sp /\ sp_verify sp g dom = true).
+Proof.
+  unfold verify_output. destruct (get_value_commit o) as [c0| |]; cbn [map_err obind]; try discriminate.
+  destruct (o_value o) as [|v|comm] eqn:V.
+  - cbn [obind]. destruct (o_asset o) as [| |g] eqn:A; cbn [obind].
+    + intros [= <-]. repeat split; intros; discriminate.
+    + intros [= <-]. repeat split; intros; discriminate.
+    + destruct (o_sp o) as [sp|]; [|discriminate]. destruct (sp_verify sp g dom) eqn:S; [|discriminate]. intros [= <-].
+      repeat split; try (intros; discriminate). intros g' [= <-]. now exists sp.
+  - cbn [obind]. destruct (o_asset o) as [| |g] eqn:A; cbn [obind].
+    + intros [= <-]. repeat split; intros; discriminate.
+    + intros [= <-]. repeat split; intros; discriminate.
+    + destruct (o_sp o) as [sp|]; [|discriminate]. destruct (sp_verify sp g dom) eqn:S; [|discriminate]. intros [= <-].
+      repeat split; try (intros; discriminate). intros g' [= <-]. now exists sp.
+  - destruct (get_asset_gen o) as [g0| |]; cbn [map_err obind]; try discriminate.
+    destruct (o_rp o) as [rp|]; [|discriminate]. destruct (rp_verify rp comm (o_script o) g0) eqn:R; cbn [obind]; [|discriminate].
+    destruct (o_asset o) as [| |g] eqn:A; cbn [obind].
+    + intros [= <-]. split; [reflexivity|]. split; [intros comm0 [= <-]; now exists g0, rp|intros; discriminate].
+    + intros [= <-]. split; [reflexivity|]. split; [intros comm0 [= <-]; now exists g0, rp|intros; discriminate].
+    + destruct (o_sp o) as [sp|]; [|discriminate]. destruct (sp_verify sp g dom) eqn:S; [|discriminate]. intros [= <-].
+      split; [reflexivity|]. split; [intros comm0 [= <-]; now exists g0, rp|]. intros g' [= <-]. now exists sp.
+Qed.
